@@ -198,6 +198,26 @@ static void enumerate(const std::string &tier, int shard, int nshards, const std
                 emit(c);
             }
         }
+    // complete near-pentagon stratum at the coarsest odd resolution that has room for it (res 1 and 2 are covered globally above): every
+    // cell within 9 (thorough 14) steps of each pentagon as origin, against every cell within 14 (20) steps of that origin
+    c.kind = 0;
+    {
+        int K = th ? 14 : 9, Rb = th ? 20 : 14;
+        H3Index p3[12];
+        getPentagons(3, p3);
+        for (int i = 0; i < 12; i++) {
+            int64_t n = 0;
+            maxGridDiskSize(K, &n);
+            std::vector<H3Index> ball((size_t)n, 0);
+            if (gridDisk(p3[i], K, ball.data())) continue;
+            std::sort(ball.begin(), ball.end());
+            for (H3Index x : ball) {
+                if (!x) continue;
+                if ((idx++ % nshards) != shard) continue;
+                c.h = x; c.k = Rb; emit(c);
+            }
+        }
+    }
     // pentagon neighbourhoods at every res: balls of radius K around the pentagon's neighbours and second ring
     c.kind = 0;
     for (int r = 0; r <= 15; r++) {
